@@ -6,6 +6,7 @@ import ScVerif.C06.ValuePull
 import ScVerif.C06.Sched
 import ScVerif.C06.VSched
 import ScVerif.C06.Lossy
+import ScVerif.C06.ReadAfter
 /-! Driver handler for C06: the stateful handler shared with C05 (message-tree model; the C06
 operations there are `rvalidate`, `rfilter`, `project`), extended with the read-option operations:
 
@@ -42,6 +43,9 @@ operations there are `rvalidate`, `rfilter`, `project`), extended with the read-
       collection whose clock starts at 0 (Sched.lean): <step> = `a <id> <msg>` Add up to bus.Send,
       `u <id> <msg>` Update up to bus.Send, `p <k>` bus.Send of the k-th parked writer, `d <id>` Delete;
       the read happens / the subscription opens after the first <npre> steps.
+      <mode> `get=<id>`: Collection.Get(id, opts) after the first <npre> steps -> panic | nil | msg (ReadAfter.lean)
+  cschedz ...   the same with a clock that stands still (every item and change is stamped 0).
+  vget <ty> <opts> <init|nil> <step>*   -> panic | nil | msg      Value.Get(opts) after the Set halves
 
   vsched <ty> <opts> <eq> <init|nil> <npre> <step>*   -> panic | `-` | time|msg|S.L. ...
       Value.Pull in a schedule of Set halves on a value holding <init> (change time 0): <step> =
@@ -222,21 +226,26 @@ def parseSched (s : String) : Option (List Bool) :=
   if s = "." then some []
   else s.toList.mapM (fun c => if c = 'h' then some true else if c = 't' then some false else none)
 
-def csched (S : Schema) (ty : Nat) (opts : List ReadOpt) (mode : String) (eq : Equiv) (pre post : List Step) : String :=
+def csched (S : Schema) (ty : Nat) (opts : List ReadOpt) (mode : String) (eq : Equiv) (pre post : List Step)
+    (w0 : World := {}) : String :=
   match computeReadConfig S ty opts with
   | none => "panic"
   | some rr =>
     if mode = "list" then
-      match listAfter namedPred rr {} pre with
+      match listAfter namedPred rr w0 pre with
       | some ms => showList (ms.map showMsg)
       | none => "panic"
     else if mode = "pull" then
-      match session namedPred rr eq {} pre post with
+      match session namedPred rr eq w0 pre post with
       | some cs => showList (cs.map showChange)
       | none => "panic"
     else if mode.startsWith "pullid=" then
-      match sessionID namedPred rr eq {} pre post (mode.drop 7).toString with
+      match sessionID namedPred rr eq w0 pre post (mode.drop 7).toString with
       | some vs => showList (vs.map showValueChange)
+      | none => "panic"
+    else if mode.startsWith "get=" then
+      match getAfter rr w0 pre (mode.drop 4).toString with
+      | some m => showOptMsg m
       | none => "panic"
     else "!bad-op"
 
@@ -270,6 +279,14 @@ def handleS (S : Schema) (toks : List String) : Schema × String :=
       else if eq = "E" then (S, csched S ty opts mode (some (fun a b => a == b)) (steps.take n) (steps.drop n))
       else bad
     | _, _, _, _ => bad
+  | "cschedz" :: ty :: o :: mode :: eq :: n :: rest =>
+    match ty.toNat?, parseOpts o, n.toNat?, parseSteps rest with
+    | some ty, some opts, some n, some steps =>
+      if eq = "-" then (S, csched S ty opts mode none (steps.take n) (steps.drop n) { tick := 0 })
+      else if eq = "E" then
+        (S, csched S ty opts mode (some (fun a b => a == b)) (steps.take n) (steps.drop n) { tick := 0 })
+      else bad
+    | _, _, _, _ => bad
   | "vsched" :: ty :: o :: eq :: init :: n :: rest =>
     match ty.toNat?, parseOpts o, parseOptMsg init, n.toNat?, parseVSteps rest with
     | some ty, some opts, some init, some n, some steps =>
@@ -285,6 +302,16 @@ def handleS (S : Schema) (toks : List String) : Schema × String :=
           | some vs => (S, showList (vs.map showValueChange))
           | none => (S, "panic")
     | _, _, _, _, _ => bad
+  | "vget" :: ty :: o :: init :: rest =>
+    match ty.toNat?, parseOpts o, parseOptMsg init, parseVSteps rest with
+    | some ty, some opts, some init, some steps =>
+      match computeReadConfig S ty opts with
+      | none => (S, "panic")
+      | some rr =>
+        match vgetAfter rr { value := init } steps with
+        | some m => (S, showOptMsg m)
+        | none => (S, "panic")
+    | _, _, _, _ => bad
   | "lmerge" :: rest =>
     match parseChanges rest with
     | some [a, b] => (S, match mergeChanges a b with | none => "drop" | some n => showChange n)
